@@ -1,6 +1,7 @@
 """C09 - performance-needed is the exact inverse of the combined-events score.
 
-Under contract: athlon_score.performance (score through C01's contract: points = exact formula on the centi-mark).
+Under contract: athlon_score.performance (score through C01's contract: points = exact formula on the centi-mark; the
+real score() is also evaluated on the returned mark and on the next-worse grid mark of every obligation).
 The inverse power (s/A)**(1/X) has no SMT theory; the postcondition
     S(k) >= max(s,0)   and   S(k -/+ 1) < s   (s >= 1),   k = centi-mark of performance(g, e, s)
 is a ground obligation per (row, target), complete for the stated domain (every row x every integer target
@@ -67,8 +68,17 @@ def check_target(o, s):
         return False, dict(observed=perf, why='score(%r) of the returned mark raises %s' % (perf, type(e).__name__), target=s)
     if isinstance(got, bool) or not isinstance(got, int):
         return False, dict(observed=perf, why='score(%r) of the returned mark is %r, not a number of points' % (perf, got), target=s)
-    ok = sk >= need and got >= need and (s < 1 or sw < s)
-    return ok, dict(observed=perf, centi=k, scores=sk, real_score=got, next_worse=worse / 100, next_worse_scores=sw, target=s)
+    # ... and on the next-worse mark of the 0.01 grid: the statement is about what the scorer returns for it
+    gw = None
+    if s >= 1 and worse >= 0:
+        try:
+            gw = a.score(g, ev, worse / 100)
+        except Exception as e:
+            return False, dict(observed=perf, why='score(%r) of the next-worse mark raises %s' % (worse / 100, type(e).__name__), target=s)
+        if isinstance(gw, bool) or not isinstance(gw, int):
+            return False, dict(observed=perf, why='score(%r) of the next-worse mark is %r, not a number of points' % (worse / 100, gw), target=s)
+    ok = sk >= need and got >= need and (s < 1 or (sw < s and (gw is None or gw < s)))
+    return ok, dict(observed=perf, centi=k, scores=sk, real_score=got, next_worse=worse / 100, next_worse_scores=sw, next_worse_real_score=gw, target=s)
 
 
 def chunk(args):
